@@ -15,8 +15,20 @@ func checkGeneric(sc *Scenario, res *RunResult, t *Truth) []Violation {
 		vs = append(vs, Violation{"C20", "panic", fn, fmt.Sprintf("panic in %s: %s (at %s)", p.Task, p.Value, fn), 0})
 	}
 	// C08: at most one live command per replica
+	scaled := map[string]bool{}
+	for _, c := range t.Calls {
+		if c.Op == "scale" || c.Op == "update" {
+			scaled[c.Arg] = true
+			if c.Op == "update" {
+				scaled["*"] = true
+			}
+		}
+	}
 	for _, rep := range sortedNames(t.ByRep) {
 		insts := t.ByRep[rep]
+		if scaled["*"] || scaled[rep] {
+			continue // replica identity under scaling/updates is C13's / C14's business
+		}
 		for i, a := range insts {
 			for _, b := range insts[i+1:] {
 				if b.ExecSeq < a.ExecSeq {
